@@ -183,6 +183,32 @@ Proof.
   - intros Hlt E. apply Rcompare_Lt_inv in E. pose proof (Hmono _ _ (Rlt_le _ _ Hlt)). lra.
   - intros ->. apply Rcompare_Eq. reflexivity.
 Qed.
+(** ... and is the exact order whenever the magnitudes (both in the normal range) differ by
+    more than the rounding error of the two products, u (|Mx| + |My|) *)
+Theorem cmp_separated (x y : Qt S) :
+  q_unit S x <> q_unit S y ->
+  fin (q_amount S x) -> fin (q_amount S y) -> fin (scale (q_unit S x)) -> fin (scale (q_unit S y)) ->
+  normal (magnitude x) -> normal (magnitude y) ->
+  exists c, HasRefUnit_partial_cmp S x y = Ok (Some c) /\
+    (magnitude x + u64 * (Rabs (magnitude x) + Rabs (magnitude y)) < magnitude y -> c = Lt) /\
+    (magnitude y + u64 * (Rabs (magnitude x) + Rabs (magnitude y)) < magnitude x -> c = Gt).
+Proof.
+  intros Hne Fa Fb Fu Fv [Nx Nx'] [Ny Ny'].
+  rewrite (ref_cmp_diff_unit S x y Hne). unfold ref_magnitude. cbn [a_mul F64 bind a_cmp].
+  destruct (mul_round (q_amount S x) (scale (q_unit S x)) Fa Fu Nx') as [F1 V1].
+  destruct (mul_round (q_amount S y) (scale (q_unit S y)) Fb Fv Ny') as [F2 V2].
+  unfold f64_cmp, b64_compare. rewrite (Bcompare_correct 53 1024 _ _ F1 F2).
+  eexists. split; [reflexivity|]. rewrite V1, V2. fold (magnitude x) (magnitude y).
+  destruct (round_rel (magnitude x) Nx) as (d1 & Hd1 & ->). destruct (round_rel (magnitude y) Ny) as (d2 & Hd2 & ->).
+  apply Rabs_le_inv in Hd1, Hd2. pose proof u64_pos as Pu.
+  assert (B1 : Rabs (magnitude x * d1) <= u64 * Rabs (magnitude x)).
+  { rewrite Rabs_mult, Rmult_comm. apply Rmult_le_compat_r; [apply Rabs_pos|apply Rabs_le; lra]. }
+  assert (B2 : Rabs (magnitude y * d2) <= u64 * Rabs (magnitude y)).
+  { rewrite Rabs_mult, Rmult_comm. apply Rmult_le_compat_r; [apply Rabs_pos|apply Rabs_le; lra]. }
+  apply Rabs_le_inv in B1, B2. split.
+  - intros Hlt. apply Rcompare_Lt. lra.
+  - intros Hlt. apply Rcompare_Gt. lra.
+Qed.
 End Instance.
 
 (** * C04 / C05: derived products and quotients *)
